@@ -491,6 +491,25 @@ func runC11(w *World, r *Report) {
 	shareRule(w, r, "C11.interrupt-keeps-sibling-updates", "an interrupt in an eager run waits for the running siblings before the state is saved: their ProcessState updates and post-handlers are in the checkpoint", 3, "C05", "C05.wait-all-before-save")
 	shareRule(w, r, "C11.node-paths-are-own-slices", "the node path a nested run is given is a slice of its own: sibling graphs deep in a nesting do not share one backing array, or the state modifier is told the same path for both and one graph's modification lands on the other's state", 0, "C16", "C16.alias")
 	shareRule(w, r, "C11.fresh-node-fresh-state", "a node scheduled (not restored) in a resumed run starts from a context without the checkpoint the run was resumed from: a nested graph reached a second time generates a fresh state instead of reusing the finished execution's", 1, "C06", "C06.fresh-node-no-checkpoint")
+	r.Rule("C11.state-before-the-start-callback", "a fresh run generates its state before the graph's start callback fires: in runner.run no call of the state-generating closure (runner.runCtx) can follow a call of onGraphStart — a graph-level OnStart handler of a stateful graph must find that graph's state (nested in a parent with the same state type it would silently work on the parent's)", 1)
+	{
+		run := w.Fn("compose", "runner.run")
+		ogs := w.Fn("compose", "onGraphStart")
+		fRunCtx := w.Field("compose", "runner", "runCtx")
+		n := 0
+		for _, c := range callsTo(run, ogs) {
+			n++
+			after, wit := pathQuery{fn: run, from: c, goal: func(x ssa.Instruction) bool {
+				cc, ok := x.(*ssa.Call)
+				return ok && !cc.Call.IsInvoke() && staticCallee(cc) == nil && isLoadOfField(cc.Call.Value, fRunCtx)
+			}}.exists()
+			r.Check(!after, "C11.state-before-the-start-callback", fmt.Sprintf("runner.run: onGraphStart call #%d", n), c.Pos(), "no state generation behind it", "the state is generated after the start callback ("+wit+"): at top level ProcessState in a graph OnStart handler fails 'have not set state'; in a nested stateful graph whose parent has the same state type the handler's updates land on the parent's state and are missing from what the nested graph's nodes see")
+		}
+		if n == 0 {
+			r.Deferred = append(r.Deferred, "C11.state-before-the-start-callback: runner.run calls onGraphStart nowhere")
+		}
+	}
+	shareRule(w, r, "C11.state-generated-from-the-runs-context", "the state generator is called with the context of the run it generates the state for, not with a context captured when the graph was compiled: a generator that reads a request-scoped value or the enclosing graph's state must see this run's", 1, "C09", "C09.ctx-not-captured")
 
 	r.Rule("C11.modifier-handed-down", "on a resume from the store the caller's state modifier is put into the context on every path to the restored tasks, whether or not this level has state of its own: a stateful nested graph below a stateful top-level graph gets its turn at the modifier too", 1)
 	{
